@@ -46,7 +46,7 @@ var c11Formats = []string{"fasta", "fastq", "sam", "samh", "bed", "newick", "ncb
 
 var dictionary = []string{`"`, `""`, `''`, `'`, "@", ">", "+", "#", ":", "::", ",", "(", ")", ";", "\t", "\r", "\n", "\r\n", "nan", "0x1p-2",
 	"1e999", "-", "*", " ", "_", "\x00", "\xff", "\x80", "=", "0", "-1", "9223372036854775808", "XX:A:\xff", "XX:i:", "XX:f:inf", "XX:H:0", "XX:B:c,1",
-	"255,255,256", "0x1,0b1,0o7", "1_0", "\t\t", "\n\n", "'a''b'", ":1e5", "(,)", ";;", "\n>", "\n@", "\n+\n", "\f", "\v"}
+	"255,255,256", "0x1,0b1,0o7", "\xef\xbb\xbf", "%", "%s", "%!", "\r\n\r\n", "1_0", "\t\t", "\n\n", "'a''b'", ":1e5", "(,)", ";;", "\n>", "\n@", "\n+\n", "\f", "\v"}
 
 // ---- own renderers of valid text (independent of the library's writers) -------------------
 
@@ -238,7 +238,7 @@ var samCorrKinds = []string{"fewfields", "badint", "tagcolons", "tagtype", "tagv
 var samCorrTexts = map[string][]string{
 	"fewfields": {""},
 	"badint":    {"x", "1.5", "", "12a", "--1", "0x1F", "1e3", " 1", "9223372036854775808", "1 "},
-	"tagcolons": {"XX", "XX:i", "XXi1", "X", ""},
+	"tagcolons": {"XX", "XX:i", "XXi1", "X", "", "XX:Z", "XX:H", "XX:B", "XX:A", "XX:f", "Z:XX", ":Z"},
 	"tagtype":   {"XX:Q:1", "XX::1", "XX:ii:1", "XX:I:1", "XX:z:a"},
 	"tagvalue":  {"XX:i:abc", "XX:i:1.5", "XX:i:", "XX:f:abc", "XX:f:", "XX:H:xyz", "XX:H:abc", "XX:A:ab", "XX:A:", "XX:i:9223372036854775808"},
 }
